@@ -140,7 +140,10 @@ def _gen_one_uri(rng):
 
 
 def gen_uri(rng, tier):
-    return {'kind': 'uri', 'uris': [_gen_one_uri(rng) for _ in range(rng.randrange(1, 8))]}
+    # 'cycles': how many times each provider is used the way a client uses it (Initialize, GetServers, Close) before
+    # its endpoints are read: what the second, third … client built from one builder is given
+    return {'kind': 'uri', 'uris': [_gen_one_uri(rng) for _ in range(rng.randrange(1, 8))],
+            'cycles': rng.choice([0, 0, 1, 2])}
 
 
 def shrink(script):
@@ -435,6 +438,11 @@ def run_uri(script):
                     steps.append([op, vfmt(['raised', type(ex).__name__])])
                 continue
             if isinstance(r, StaticServerSetProvider):
+                for _ in range(script.get('cycles', 0)):
+                    r.Initialize(lambda m: None, lambda m: None)
+                    r.GetServers()
+                    r.Close()
+                    tags.add('provider-reused-after-close')
                 eps = []
                 for s in r.GetServers():
                     ep = s.service_endpoint
